@@ -143,6 +143,7 @@ fn run_tree<X: Tree>(ctx: &mut Ctx, prop: &str, gen: &Gen, vm: &str) {
             let all: Vec<usize> = if n <= 70_000 { (0..=n + 2).collect() } else { positions(n, 0) };
             let mut pos = all;
             pos.extend([UMAX - 1, UMAX]);
+            pos.extend(mc::sweep::wrap_args(n));
             for &c in &syms {
                 for &i in &pos {
                     let base = trap(|| t.rank_(c, i));
